@@ -244,7 +244,8 @@ def run(prog, rep, tier):
                     ok = True
                 else:
                     why = 'sync found but inner=%s position=%s untouched-between=%s' % (same_inner, same_pos, not between)
-            rep.ob('R13.5', ok, 'R13.5|%s|new_decompressor_at#%d|inner-positioned-absolutely' % (body.nkey, nsite),
+            k13 = sum(1 for x in body.calls() if x.idx < b.idx and cnorm(x.term).endswith('CompressionLayerReader::new_decompressor_at'))
+            rep.ob('R13.5', ok, 'R13.5|%s|new_decompressor_at#%d|inner-positioned-absolutely' % (body.nkey, k13),
                    'the inner reader is seeked to the block start (sync_inner_with_uncompressed_pos) right before the decompressor is built on it' if ok else
                    'a block decompressor is built on an inner reader that was not positioned absolutely (%s): where the previous decompressor stopped reading depends on the '
                    'sizes of the reads its source served, so a short-reading source shifts the next block' % why, body.loc(b.idx))
